@@ -12,12 +12,12 @@ dest=$(grep -o -m1 '<repo>/[a-z/_A-Z0-9.]*' "$demo" | sed "s#<repo>/##")
 [ -z "$dest" ] && dest=$(grep -o -m1 'copy to [^ ]*' "$demo" | awk '{print $3}' | sed 's#^.*repo[^/]*/##')
 echo "demo=$demo dest=$dest"
 pkg=./$(dirname "$dest")/
-run_demo() { mkdir -p "$(dirname "$dest")"; cp "$demo" "$dest"; if [[ "$dest" == *_test.go ]]; then go test -vet=off -count=1 -run 'Seeded|Demo' "$pkg" > /tmp/seed_demo.log 2>&1; else go run "$pkg" > /tmp/seed_demo.log 2>&1; fi; rc=$?; rm -f "$dest"; return $rc; }
-run_demo; echo "demo without change: rc=$? (want 0)"; tail -2 /tmp/seed_demo.log
+run_demo() { mkdir -p "$(dirname "$dest")"; cp "$demo" "$dest"; if [[ "$dest" == *_test.go ]]; then go test -vet=off -count=1 -run 'Seeded|Demo' "$pkg" > /tmp/seed_demo.$$.log 2>&1; else go run "$pkg" > /tmp/seed_demo.$$.log 2>&1; fi; rc=$?; rm -f "$dest"; return $rc; }
+run_demo; echo "demo without change: rc=$? (want 0)"; tail -2 /tmp/seed_demo.$$.log
 git apply "$SD/patch.diff" || { echo "PATCH DOES NOT APPLY"; exit 2; }
 go build ./... || { echo "DOES NOT BUILD"; exit 2; }
 go test -vet=off -count=1 ./... 2>&1 | grep -E "^(---|FAIL|ok)" | grep -v "^ok" | grep -v -E "TestBasic|TestRedirect|servitor/jtp|^FAIL$" ; echo "existing tests with change: (lines above = unexpected failures)"
-run_demo; echo "demo with change: rc=$? (want non-zero)"; tail -3 /tmp/seed_demo.log
+run_demo; echo "demo with change: rc=$? (want non-zero)"; tail -3 /tmp/seed_demo.$$.log
 # run the named checks against the patched worktree (not /repo, which other runs may be using)
 for c in "$@"; do (cd /verif && VERIF_REPO="$WT" ./vcheck run "$c" quick 2>&1 | grep -E "VIOLATION|KNOWN|HARNESS|exhaustive=" | cut -c1-220; echo "check $c exit=${PIPESTATUS[0]}"); done
 git checkout -q -- . ; git clean -fdq
